@@ -230,11 +230,14 @@ def r4_stop_phase_executor(report, repo, rule='C03-R4'):
                'force does not default to False: a single abort cancels '
                'running teardown phases')
 
+  # the local alias of the executor
+  pe = lib.local_from(f, lambda e: dotted(e) == 'self._phase_exec', 'phase_exec')
+
   def classify(expr, steps):
     d = dotted(expr)
     if d == 'force':
       return 'force'
-    if d is not None and (d == 'phase_exec' or d == 'self._phase_exec'):
+    if d is not None and (d == pe or d == 'self._phase_exec'):
       return 'exists'
     if isinstance(expr, ast.Call) and call_name(expr) == LOCK + '.acquire':
       if expr.args and isinstance(expr.args[0], ast.Constant) and \
@@ -256,7 +259,8 @@ def r4_stop_phase_executor(report, repo, rule='C03-R4'):
             seq.append('try-acquire' if nb else 'BLOCKING-acquire')
           elif cn == LOCK + '.release':
             seq.append('release')
-          elif last_attr(sub) == 'stop' and cn.endswith('phase_exec.stop'):
+          elif last_attr(sub) == 'stop' and cn in (pe + '.stop',
+                                                   'self._phase_exec.stop'):
             seq.append('stop')
           elif last_attr(sub) == 'reset_stop':
             seq.append('reset')
@@ -354,7 +358,7 @@ def r8_with_context(report, repo):
   inner = [n for n in f.node.body if isinstance(n, ast.FunctionDef)]
   report.expect_instances(rule, len(inner), 1, 'creator closures')
   built = {}
-  for st in f.node.body:
+  for st in walk_no_nested(f.node):
     if isinstance(st, ast.Assign) and len(st.targets) == 1 and isinstance(
         st.targets[0], ast.Name):
       cs = [c for c in ast.walk(st.value) if isinstance(c, ast.Call) and
